@@ -89,6 +89,10 @@ def push(sofar, v):
     return sofar
 
 
+def rt2(sofar, x):
+    return rt(x, sofar)
+
+
 def rt(x, sofar):
     """A run-time (non literal) argument: computed from a literal and from what the caller has
     obtained so far (the values of its earlier statements)."""
@@ -178,6 +182,11 @@ def _stmt_lines(shape: Shape, f: str, i: int, s: Dict[str, str], args: Dict[Tupl
         return ["    sv.append(dds.keep(%s, %s, x=%s))" % (pexpr(shape, s["p"]), g, lit)]
     assert a == "runtime", s
     svx = "sv" if inline_prev is None else "L.push(sv, %s)" % inline_prev
+    if s["lay"] == "1" and inline_prev is not None:
+        # the helper call sits on the first line of the statement (where the specification has the plain
+        # call statement, which carries no literal), the literal on the second one
+        return ["    sv.append(dds.keep(%s, %s, L.rt2(%s," % (pexpr(shape, s["p"]), g, svx),
+                "                       %s)))" % lit]
     if s["lay"] == "1":
         return ["    sv.append(dds.keep(%s, %s, L.rt(%s, %s)))" % (pexpr(shape, s["p"]), g, lit, svx)]
     if s["lay"] == "2":
